@@ -385,7 +385,7 @@ class StmtOps:
                 st.heap[a] = st.decls.const('H_' + a, '(Array Int Val)')
                 st.bump(a)
 
-    def check_loop_frame(self, node, ordn, items, whole, head, head_env, entry_alloc):
+    def check_loop_frame(self, node, ordn, items, whole, head, head_env, entry_alloc, famwhole=None):
         """what an iteration changes on objects that existed before the loop must be covered by the loop's havoc set
         (its `modifies` annotation and the attributes it stores syntactically): otherwise the cut would keep stale facts"""
         st = self.st
@@ -431,6 +431,7 @@ class StmtOps:
             if old is None or old == arr or attr in whole:
                 continue
             excl = [mk_not(mk_eq('r', o)) for o in objs.get(attr, [])]
+            excl += [mk_not(self.cls_in('r', self.family_classes(f))) for f in (famwhole or {}).get(attr, [])]
             goal = "(forall ((r Int)) %s)" % mk_implies(mk_and(mk_lt('r', entry_alloc), *excl),
                                                        mk_eq(mk_select(arr, 'r'), mk_select(old, 'r')))
             st.oblige(goal, '%s: attribute %s of objects that existed before the loop changes only where the loop says so' % (what, attr),
@@ -484,7 +485,13 @@ class StmtOps:
                     or it.startswith('fresh:') or it == 'alloc'):
                 covered.add(it.rsplit('.', 1)[-1])
         entry_alloc = st.alloc
-        whole = set(sorted(stored_attrs(body) - covered)) | {it[5:] for it in items if it.startswith('heap:')}
+        famwhole = {}
+        for it in items:
+            if it.startswith('heap:') and '@' in it:
+                a, f = it[5:].split('@', 1)
+                famwhole.setdefault(a, []).append(f)
+                covered.add(a)          # the body's syntactic stores of this attribute are stores on that family (frame-checked)
+        whole = set(sorted(stored_attrs(body) - covered)) | {it[5:] for it in items if it.startswith('heap:') and '@' not in it}
         self.havoc_modifies(items, st.env)
         self.havoc_heap(sorted(stored_attrs(body) - covered))
         self.havoc_heap(['alloc'])
@@ -519,7 +526,7 @@ class StmtOps:
                 return
             self.spec_env.pop('_i', None)
             self.eval_invs(ann, mk_add(i, '1'), 'loop #%d invariant preserved' % ordn, node, assume=False)
-            self.check_loop_frame(node, ordn, items, whole, head, head_env, entry_alloc)
+            self.check_loop_frame(node, ordn, items, whole, head, head_env, entry_alloc, famwhole)
             raise PathEnd('loop-back')
         # exit
         for name, ty in ann.get('defines', {}).items():
